@@ -375,7 +375,7 @@ def main(argv):
         for b in ('make', 'ninja'):
             roles = ROLES if len(n) <= 4 and not ck.quick else \
                 rnd.sample(ROLES, 2 if ck.quick else 3)
-            if n.startswith('xx') or n in ('-x', '(x)', 'x(y)z', ' x'):
+            if n.startswith('xx') or n in ('-x', '(x)', 'x(y)z', ' x', '=x'):
                 roles = ROLES
             for r in roles:
                 # (the stub compiler's "// deps:" line is blank-separated;
@@ -422,6 +422,8 @@ def main(argv):
             key = 'C04:%s:percent:%s:%s' % (b, r, info[0])
         if bad == ['leaddash']:     # identified by the role the name plays
             key = 'C04:%s:leaddash:%s' % (b, r)
+        if n.startswith('=') and r == 'rootobj' and b == 'ninja':
+            key = 'C04:ninja:leadeq:rootobj'
         ck.report(key,
                   '%s: backend %s role %s name %r: %s' % (
                       info[0], b, r, n, e.get('note', '')[-200:]),
